@@ -813,6 +813,33 @@ pub fn generate(rng: &mut Rng, mode: Mode, form: Form) -> Graph {
         fs.files.insert(paths[i].clone(), text);
     }
 
+    // `defined` that only appears through a macro written in an included file, used by the
+    // includer: undefined in C (the model does not judge it), but it must not bring the compiler
+    // down - the tokens of one condition then come from two files
+    if rng.chance(1, 16)
+        && let Some(i) = (0..n).find(|i| !edges[*i].is_empty())
+    {
+        let t = edges[i][0];
+        if t != i {
+            let m = *rng.pick(MACROS);
+            let (f, _) = FUNCS[1];
+            let form_line = match rng.below(3) {
+                0 => format!("#define {f}(a) defined a\n"),
+                1 => format!("#define {f}(a) defined(a)\n"),
+                _ => format!("#define {f}(a) ! defined a\n"),
+            };
+            if let Some(body) = fs.files.get_mut(&paths[t]) {
+                body.insert_str(0, &form_line);
+            }
+            if let Some(body) = fs.files.get_mut(&paths[i]) {
+                if !body.ends_with('\n') {
+                    body.push('\n');
+                }
+                body.push_str(&format!("#if {f}({m})\n#endif\n#if {f} ( {m} ) && 1\n#endif\n"));
+            }
+        }
+    }
+
     // API-level defines
     let nd = [0usize, 0, 1, 1, 2, 3][rng.below(6) as usize];
     let mut names: Vec<&str> = MACROS.to_vec();
